@@ -2,8 +2,8 @@ package main
 
 import (
 	"fmt"
-	"os"
 	"go/types"
+	"os"
 	"strings"
 
 	"golang.org/x/tools/go/ssa"
@@ -268,7 +268,14 @@ func (ex *Exec) havocCall(st *State, fr *Frame, ins ssa.Instruction, name string
 	// the call event is observed with the arguments as they were passed; the callee's writes come after
 	ex.event(st, &Event{Callee: name, Args: args, Results: tupleElems(res), Instr: ins, Fn: fr.Fn, Kind: "call"})
 	if writes {
-		for _, a := range args {
+		var ro map[int]bool
+		if ex.Specs != nil {
+			ro = ex.Specs.ReadonlyArgs[name]
+		}
+		for i, a := range args {
+			if ro[i] {
+				continue
+			}
 			ex.havocReach(st, a, map[*Object]bool{})
 		}
 	}
